@@ -154,6 +154,10 @@ def harnesses(tier, seed):
         p = RC.pkey(ctx.choose(psets(st, n), "params"))
         x = [float(v) for v in xp]
         m = len(x)
+        # history: a different grid with the same length, end points and n is recreated first
+        alt0 = [x[0] + (x[-1] - x[0]) * i / (m - 1) for i in range(m)]
+        if alt0 != x:
+            _run(st, alt0, list(lattice[1]), n, p)
         base = {}
         for y in lattice:
             base[y] = _run(st, x, list(y), n, p)[1]
